@@ -31,7 +31,8 @@ def run(index, tier="quick", seed=0) -> Result:
     for node in ast.walk(fn.node):
         if isinstance(node, ast.If):
             t = ast.unparse(node.test)
-            if "shape" in t and "2" in t and "points" in t:
+            pname = fn.params[1] if len(fn.params) > 1 else "points"
+            if "shape" in t and "2" in t and pname in t:
                 for b in ast.walk(node):
                     if isinstance(b, ast.Call):
                         nm = b.func.attr if isinstance(b.func, ast.Attribute) else getattr(b.func, "id", "")
